@@ -1102,6 +1102,9 @@ def corpus_cases():
     out.append(([C.header(3), pA3[0].with_picnum(0), fd[0].with_picnum(7), eos()], "data-fragment-after-picture-other-number", C.name))
     # complete fragmented picture followed by one more data fragment
     out.append(([C.header(3), f0.with_picnum(0)] + [d.with_picnum(0) for d in fd[:4]] + [fd[0].with_picnum(0), eos()], "extra-data-fragment", C.name))
+    # major_version 0 (MajorVersionTooLow), and a version-3 header announcing a preset that needs 3 on a version-2 header
+    out.append(([A.header(0), eos()], "major-version-zero", A.name))
+    out.append(([A.header(2, 0, 2), eos()], "preset-needs-version-3", A.name))
     # level 1: pictures mixed with fragments (symbol_re defect)
     out.append(([C.header(3, 1), pA3[0].with_picnum(0), f0.with_picnum(1)] + [d.with_picnum(1) for d in fd[:4]] + [eos()], "level1-mixed", C.name))
     return out
